@@ -53,16 +53,26 @@ func Now() time.Time {
 	return now
 }
 
-func Since(t Time) Duration                 { return Now().Sub(t) }
-func Until(t Time) Duration                 { return t.Sub(Now()) }
-func Unix(sec int64, nsec int64) Time       { return time.Unix(sec, nsec) }
-func UnixMilli(msec int64) Time             { return time.UnixMilli(msec) }
-func UnixMicro(usec int64) Time             { return time.UnixMicro(usec) }
-func Sleep(d Duration)                      { time.Sleep(d) }
-func After(d Duration) <-chan Time          { return time.After(d) }
-func Tick(d Duration) <-chan Time           { return time.Tick(d) }
-func NewTimer(d Duration) *Timer            { return time.NewTimer(d) }
-func NewTicker(d Duration) *Ticker          { return time.NewTicker(d) }
+func Since(t Time) Duration           { return Now().Sub(t) }
+func Until(t Time) Duration           { return t.Sub(Now()) }
+func Unix(sec int64, nsec int64) Time { return time.Unix(sec, nsec) }
+func UnixMilli(msec int64) Time       { return time.UnixMilli(msec) }
+func UnixMicro(usec int64) Time       { return time.UnixMicro(usec) }
+func Sleep(d Duration)                { time.Sleep(d) }
+func After(d Duration) <-chan Time    { return time.After(d) }
+func Tick(d Duration) <-chan Time     { return time.Tick(d) }
+func NewTimer(d Duration) *Timer      { return time.NewTimer(d) }
+
+// TickerPeriod, when non-zero, replaces the period of every ticker the code under test creates (the background
+// merge ticks once per second: the harness makes it tick every few hundred microseconds).
+var TickerPeriod Duration
+
+func NewTicker(d Duration) *Ticker {
+	if TickerPeriod != 0 {
+		d = TickerPeriod
+	}
+	return time.NewTicker(d)
+}
 func AfterFunc(d Duration, f func()) *Timer { return time.AfterFunc(d, f) }
 func ParseDuration(s string) (Duration, error) {
 	return time.ParseDuration(s)
